@@ -563,11 +563,48 @@ func (s *scen) opInsert(n int) {
 		s.byID[0][ids0[i]], s.byID[1][ids1[i]] = d, d
 	}
 	s.everDoc = true
+	s.checkFresh(op, s.docs[len(s.docs)-1])
 	s.c.Distinct(fmt.Sprintf("%s|ok|fields=%d|unique=%v", op, len(s.fields), len(s.uniqueFields()) > 0))
 	for _, f := range s.fields {
 		if _, ok := known(news[0], f); ok {
 			s.c.Distinct(fmt.Sprintf("%s|%s|%s|stored", op, typeName(f.Type), s.idxState(f.Name)))
 		}
+	}
+}
+
+// checkFresh: the latest revision of a document must be served (and provable) as soon as the write
+// that created it has been acknowledged — no search in between that would wait for the index.
+func (s *scen) checkFresh(op string, d *mdoc) {
+	if s.r.IntN(3) != 0 {
+		return
+	}
+	twin := s.r.IntN(2)
+	s.c.Eval(1)
+	if s.dbe != nil {
+		pr, err := s.dbe.proof(twinNames[twin], d.id[twin], 0, 0)
+		s.logf("proof of latest revision of #%d on %s right after %s -> %v", d.n, twinNames[twin], op, err)
+		s.c.Distinct("proof|fresh|" + op + "|" + errClass(err))
+		if err != nil {
+			cause := errClass(err)
+			if cause == "document-not-found" {
+				cause = "latest-revision-not-yet-indexed"
+			}
+			s.viol("proof/honest-refused/"+cause, fmt.Sprintf("ProofDocument(#%d on %s, TransactionId 0 = latest revision) right after the acknowledged %s (tx %d) failed: %v", d.n, twinNames[twin], op, d.last().tx[twin], err))
+		} else if got := pr.VerifiableTx.Tx.Header.Id; got != d.last().tx[twin] {
+			s.viol("proof/latest-revision-stale-after-write", fmt.Sprintf("ProofDocument(#%d on %s, TransactionId 0 = latest revision) right after the acknowledged %s (tx %d) proves the revision written by tx %d", d.n, twinNames[twin], op, d.last().tx[twin], got))
+		}
+		return
+	}
+	rv, tx, err := s.be.encoded(twinNames[twin], d.id[twin], 0)
+	s.logf("encoded latest revision of #%d on %s right after %s -> rev %d tx %d %v", d.n, twinNames[twin], op, rv, tx, err)
+	s.c.Distinct("lookup|fresh|" + op + "|" + errClass(err))
+	switch {
+	case err != nil && errClass(err) == "document-not-found":
+		s.viol("model/lookup/latest-revision-not-yet-indexed", fmt.Sprintf("GetEncodedDocument(#%d on %s, tx 0 = latest revision) right after the acknowledged %s (tx %d) failed: %v", d.n, twinNames[twin], op, d.last().tx[twin], err))
+	case err != nil:
+		s.viol("model/lookup/encoded-error", fmt.Sprintf("latest encoded document #%d on %s right after %s: %v", d.n, twinNames[twin], op, err))
+	case rv != uint64(d.nrevs()) || tx != d.last().tx[twin]:
+		s.viol("model/lookup/latest-revision-stale-after-write", fmt.Sprintf("latest encoded document #%d on %s right after %s: revision %d tx %d, the model has revision %d tx %d", d.n, twinNames[twin], op, rv, tx, d.nrevs(), d.last().tx[twin]))
 	}
 }
 
@@ -775,6 +812,9 @@ func (s *scen) replace(op string, mk func(twin int) (*protomodel.Query, *structp
 		d.revs = append(d.revs, rev{tx: [2]uint64{sets[0][d].TransactionId, sets[1][d].TransactionId}, doc: payload, incs: s.incs()})
 	}
 	s.c.Distinct(fmt.Sprintf("%s|ok|replaced=%s|%s", op, bucketN(len(targets)), sh))
+	if len(targets) > 0 {
+		s.checkFresh(op, targets[s.r.IntN(len(targets))])
+	}
 }
 
 func bucketN(n int) string {
